@@ -44,7 +44,11 @@ static Binson parse_object(Tok &tk) {   /* after "{" */
         std::string k = tk.t[tk.i++];
         std::string key = unhex(k.substr(1));
         BinsonValue v = parse_value(tk);
-        b.put(key, v);
+        /* all three put() overloads build the same tree (chosen from the key, so that a line replays identically) */
+        unsigned sel = (unsigned)(key.size() * 7 + (key.empty() ? 3 : (unsigned char)key[0]));
+        if (v.myType() == BinsonValue::Types::objectType && sel % 2 == 0) b.put(key, Binson(v.getObject()));
+        else if (v.myType() == BinsonValue::Types::binaryType && sel % 2 == 0) { const std::vector<uint8_t> &d = v.getBin(); static const uint8_t none = 0; b.put(key, d.empty() ? &none : d.data(), d.size()); }
+        else b.put(key, v);
     }
     tk.i++;
     return b;
@@ -52,15 +56,26 @@ static Binson parse_object(Tok &tk) {   /* after "{" */
 static BinsonValue parse_value(Tok &tk) {
     if (tk.i >= tk.t.size()) throw std::runtime_error("bad tree");
     std::string x = tk.t[tk.i++];
+    /* every constructor and assignment operator of BinsonValue yields the same value; which one is used follows from the
+       token text, so that a line replays identically */
+    unsigned sel = (unsigned)x.size() + (unsigned char)x[x.size() - 1];
     switch (x[0]) {
-    case 't': return BinsonValue(true);
-    case 'f': return BinsonValue(false);
-    case 'i': return BinsonValue((int64_t)strtoll(x.c_str() + 1, nullptr, 10));
-    case 'd': { uint64_t u = strtoull(x.c_str() + 1, nullptr, 10); double d; memcpy(&d, &u, 8); return BinsonValue(d); }
-    case 's': return BinsonValue(unhex(x.substr(1)));
-    case 'y': { std::string s = unhex(x.substr(1)); return BinsonValue(std::vector<uint8_t>(s.begin(), s.end())); }
-    case '{': return BinsonValue(parse_object(tk));
-    case '[': { std::vector<BinsonValue> a; while (tk.i < tk.t.size() && tk.t[tk.i] != "]") a.push_back(parse_value(tk)); tk.i++; return BinsonValue(a); }
+    case 't': if (sel % 2) { BinsonValue v; v = true; return v; } return BinsonValue(true);
+    case 'f': if (sel % 2) { BinsonValue v; v = false; return v; } return BinsonValue(false);
+    case 'i': { int64_t n = (int64_t)strtoll(x.c_str() + 1, nullptr, 10);
+                if (n >= -2147483647LL - 1 && n <= 2147483647LL && sel % 3 == 0) return BinsonValue((int)n);
+                if (n >= -2147483647LL - 1 && n <= 2147483647LL && sel % 3 == 1) { BinsonValue v; v = (int)n; return v; }
+                if (sel % 2) { BinsonValue v; v = (int64_t)n; return v; }
+                return BinsonValue(n); }
+    case 'd': { uint64_t u = strtoull(x.c_str() + 1, nullptr, 10); double d; memcpy(&d, &u, 8); if (sel % 2) { BinsonValue v; v = (double)d; return v; } return BinsonValue(d); }
+    case 's': { std::string str = unhex(x.substr(1));
+                if (str.find('\0') == std::string::npos && sel % 3 == 0) return BinsonValue(str.c_str());
+                if (sel % 3 == 1) { const std::string &cref = str; return BinsonValue(cref); }
+                if (sel % 2) { BinsonValue v; v = std::string(str); return v; }
+                return BinsonValue(std::string(str)); }
+    case 'y': { std::string s = unhex(x.substr(1)); std::vector<uint8_t> bin(s.begin(), s.end()); if (sel % 2) { BinsonValue v; v = std::vector<uint8_t>(bin); return v; } return BinsonValue(bin); }
+    case '{': { Binson o = parse_object(tk); if (sel % 2) { BinsonValue v; v = Binson(o); return v; } return BinsonValue(o); }
+    case '[': { std::vector<BinsonValue> a; while (tk.i < tk.t.size() && tk.t[tk.i] != "]") a.push_back(parse_value(tk)); tk.i++; if (sel % 2) { BinsonValue v; v = std::vector<BinsonValue>(a); return v; } return BinsonValue(a); }
     default: throw std::runtime_error("bad tree token " + x);
     }
 }
@@ -118,6 +133,11 @@ static void exec_line(const std::string &line) {
             Binson c; if (pre) { c.put("zz", BinsonValue((int64_t)1)); c.put("", BinsonValue(std::string("old"))); }
             do_deserialize(c, t[0][2] - '0', std::string(v.begin(), v.end()), 0xC8);
             std::vector<uint8_t> w = c.serialize();
+            /* the lookup interface agrees with the round trip: every key of x is in the result with the same type, no foreign key */
+            for (auto it = b.begin(); it != b.end(); ++it) {
+                if (!c.hasKey(it->first) || c.get(it->first).myType() != it->second.myType()) throw std::runtime_error("round trip lost or retyped a key");
+            }
+            if (c.hasKey(std::string("\x01no-such-key"))) throw std::runtime_error("hasKey true for an absent key");
             fprintf(fout, "ok %s %s\n", hex(v.data(), v.size()).c_str(), hex(w.data(), w.size()).c_str()); return;
         }
         if ((t[0].size() == 3 || pre) && t[0][0] == 'x' && t[0][1] == 'd' && t.size() >= 3) {
